@@ -716,7 +716,22 @@ func (fr *Frame) enterLoop(lp *Loop, ins []edgeIn) (*State, string) {
 			}
 		}
 	}
-	// ghost state modified in the loop: visited sets of range loops inside
+	// ghost state modified in the loop (a ghost variable not touched before the loop still has
+	// its initial value there and must be forgotten all the same)
+	for g := range eff.ghost {
+		if _, ok := s1.ghost[g]; ok {
+			continue
+		}
+		switch {
+		case g == "sent" || g == "received":
+			c.ghostSorts[g] = "(Array Int Int)"
+		case eff.sorts[g] != "":
+			c.ghostSorts[g] = eff.sorts[g]
+		}
+		if _, ok := c.ghostSorts[g]; ok {
+			s1.ghost[g] = c.ghostInit(g)
+		}
+	}
 	for g := range s1.ghost {
 		if strings.HasPrefix(g, "visited.") {
 			if eff.ranges[g] {
